@@ -59,7 +59,7 @@ def execute(case):
     try:
         ctype = CT[case["ct"] - 1]
         rng = random.Random(json.dumps({k: case[k] for k in ("ct", "obj", "sfx", "sfmt", "lfmt", "ltype", "tamper", "nested")}, sort_keys=True))
-        world = ac.random_world(rng, ctype)
+        world = ac.random_world(rng, ctype, dups=False)   # repeated members are the subject of C01/C02 (open findings), not of the dispatch rules
         world["audio"] = "none"
         root, _rev, recs = ac.build_world(world, tmp / "audio")
         given = root
